@@ -538,8 +538,14 @@ def concOp (L : Layout) (rs : List Bytes) : Op → COp
 
 /-! ## File.py: choosing the padding settings by scanning -/
 
+/-- one iteration of `genPr` after a successful `_readHead`: `self.skipLrBytes(self.ldLen)`, `self._readTail()` -/
+def genPrBody (cfg : Cfg) (f : Bytes) (s : Rd) : Except Err Rd :=
+  match skipLrBytes cfg f s s.ldLen with
+  | .error e => .error e
+  | .ok (s, _) => readTail cfg f s
+
 /-- `scan_file_no_output`: the loop `for _ in phys_rec.genPr(): pr_count += 1; if pr_limit and pr_count >= pr_limit: break`
-with the body of `genPr` (`_readHead`, stop at EOF, `skipLrBytes(self.ldLen)`, `_readTail`) inlined; fuel = file length + 1 -/
+with `genPr` (`_readHead`, stop at EOF, body, yield) inlined; fuel = file length + 1 -/
 def genPrLoop (cfg : Cfg) (f : Bytes) : Nat → Rd → Nat → Nat → Except Err Nat
   | 0, _, _, _ => .error .fuel
   | fuel + 1, s, cnt, limit =>
@@ -548,13 +554,10 @@ def genPrLoop (cfg : Cfg) (f : Bytes) : Nat → Rd → Nat → Nat → Except Er
     | .error e => .error e
     | .ok s =>
       if s.isEOF then .ok cnt else
-      match skipLrBytes cfg f s s.ldLen with
+      match genPrBody cfg f s with
       | .error e => .error e
-      | .ok (s, _) =>
-        match readTail cfg f s with
-        | .error e => .error e
-        | .ok s =>
-          if limit ≠ 0 ∧ cnt + 1 ≥ limit then .ok (cnt + 1) else genPrLoop cfg f fuel s (cnt + 1) limit
+      | .ok s =>
+        if limit ≠ 0 ∧ cnt + 1 ≥ limit then .ok (cnt + 1) else genPrLoop cfg f fuel s (cnt + 1) limit
 
 /-- `scan_file_no_output(file, keep_going, pad_modulo, pad_non_null, pr_limit)`: number of PRs, 0 after
 ExceptionPhysRec / ExceptionTifMarker -/
@@ -575,12 +578,14 @@ def retMax (l : List ((Nat × Bool) × Nat)) : List (Nat × Bool) :=
   let mx := l.foldl (fun a x => max a x.2) 0
   (l.filter (fun x => x.2 = mx)).map (·.1)
 
-/-- `best_physical_record_pad_settings(file, pr_limit)` (the scan runs with keep_going=True) -/
-def bestPad (f : Bytes) (limit : Nat) : Option (Nat × Bool) :=
-  let c := scanAll true f limit
+/-- the end of `best_physical_record_pad_settings`: `best_pad_opts[0]` if there is one and it counted a record -/
+def pickBest (c : List ((Nat × Bool) × Nat)) : Option (Nat × Bool) :=
   match retMax c with
   | [] => none
   | o :: _ => if (c.lookup o).getD 0 > 0 then some o else none
+
+/-- `best_physical_record_pad_settings(file, pr_limit)` (the scan runs with keep_going=True) -/
+def bestPad (f : Bytes) (limit : Nat) : Option (Nat × Bool) := pickBest (scanAll true f limit)
 
 /-- `file_read_with_best_physical_record_pad_settings`: the constructor arguments of the `FileRead` it returns -/
 def bestReaderCfg (f : Bytes) (limit : Nat) : Option Cfg :=
